@@ -1227,13 +1227,13 @@ Implicit Types X Y : cstate -> Prop.
 Lemma AllSafe_w_dirs s ds : AllSafe s -> AllSafe (w_dirs s ds).
 Proof. intros H. exact H. Qed.
 
-Lemma with_dir_entry_mut_tot2 (X X' : cstate -> Prop) id f : astable X' ->
+Lemma with_dir_entry_mut_inner_tot2 (X X' : cstate -> Prop) id f : astable X' ->
   (forall s, X s -> id < lenN (dirs s)) ->
   (forall s, X' s -> id < lenN (dirs s) /\ Forall EntOk (dirs s)) ->
   (forall s e, X s -> nthN (dirs s) id = Some e -> X' (w_dirs s (updN (dirs s) id (f e)))) ->
-  tot (AX X) (with_dir_entry_mut id f) (fun _ => AX X') (fun s => AX X s \/ AX X' s).
+  tot (AX X) (with_dir_entry_mut_inner id f) (fun _ => AX X') (fun s => AX X s \/ AX X' s).
 Proof.
-  intros HX' Hid Hid' Hupd. unfold with_dir_entry_mut.
+  intros HX' Hid Hid' Hupd. unfold with_dir_entry_mut_inner.
   eapply tot_bind.
   { eapply tot_conseq; [apply (dir_entry_tot (AX X) id)| | |].
     - intros s H. split; [exact H|]. apply Hid. apply H.
@@ -1254,13 +1254,58 @@ Proof.
   - intros s H. right. exact H.
 Qed.
 
+(* whatever the inner run did, putting the table back gives a state the FAT layer cannot
+   tell from the initial one *)
+Lemma framesA_write_dir_entry id : framesA (write_dir_entry id).
+Proof.
+  unfold write_dir_entry, dir_entry.
+  repeat fa_step ltac:(first [apply framesA_chain_new|apply framesA_chain_seek
+                             |apply framesA_chain_write_all]).
+Qed.
+
+Lemma with_dir_entry_mut_inner_restore id f s :
+  eqA s (w_dirs (fst (with_dir_entry_mut_inner id f s)) (dirs s)).
+Proof.
+  unfold with_dir_entry_mut_inner.
+  unfold bind at 1. unfold dir_entry at 1. unfold bind at 1, get at 1.
+  destruct (nthN (dirs s) id) as [e|] eqn:He; [|repeat split].
+  unfold ret at 1. cbv beta iota.
+  unfold bind at 1. unfold set_dir_entry at 1. unfold bind at 1, get at 1. rewrite He.
+  unfold put at 1. cbv beta iota.
+  pose proof (framesA_write_dir_entry id (w_dirs s (updN (dirs s) id (f e)))) as F.
+  destruct (write_dir_entry id (w_dirs s (updN (dirs s) id (f e)))) as [s1 r]. cbn [fst] in *.
+  destruct F as (F1 & F2 & F3 & F4 & F5 & F6).
+  destruct r; cbn [fst]; unfold eqA; cbn [ver dirs dir_start minifat minifat_start mfree w_dirs] in *;
+    repeat split; first [assumption|reflexivity].
+Qed.
+
+Lemma with_dir_entry_mut_tot2 (X X' : cstate -> Prop) id f : astable X -> astable X' ->
+  (forall s, X s -> id < lenN (dirs s)) ->
+  (forall s, X' s -> id < lenN (dirs s) /\ Forall EntOk (dirs s)) ->
+  (forall s e, X s -> nthN (dirs s) id = Some e -> X' (w_dirs s (updN (dirs s) id (f e)))) ->
+  tot (AX X) (with_dir_entry_mut id f) (fun _ => AX X') (fun s => AX X s \/ AX X' s).
+Proof.
+  intros HX HX' Hid Hid' Hupd s Hs.
+  destruct (with_dir_entry_mut_inner_tot2 X X' id f HX' Hid Hid' Hupd s Hs) as (HJ & HQ & HF).
+  pose proof (with_dir_entry_mut_inner_restore id f s) as HR.
+  unfold with_dir_entry_mut. destruct (with_dir_entry_mut_inner id f s) as [s1 r]. cbn [fst snd] in *.
+  assert (HA : AX X (w_dirs s1 (dirs s))).
+  { split; [|exact (HX _ _ HR (proj2 Hs))].
+    apply AllSafe_w_dirs. destruct HJ as [[H _]|[H _]]; exact H. }
+  destruct r as [u|k|n|]; cbn [fst snd].
+  - split; [exact HJ|]. split; [exact HQ|exact HF].
+  - split; [left; exact HA|]. split; [discriminate|exact HF].
+  - split; [left; exact HA|]. split; [discriminate|exact HF].
+  - split; [left; exact HA|]. split; [discriminate|exact HF].
+Qed.
+
 Lemma with_dir_entry_mut_tot X id f : astable X ->
   (forall s, X s -> id < lenN (dirs s) /\ Forall EntOk (dirs s)) ->
   (forall s e, X s -> nthN (dirs s) id = Some e -> X (w_dirs s (updN (dirs s) id (f e)))) ->
   tot (AX X) (with_dir_entry_mut id f) (fun _ => AX X) (AX X).
 Proof.
   intros HX Hid Hupd.
-  eapply tot_conseq; [apply (with_dir_entry_mut_tot2 X X id f HX)| | |].
+  eapply tot_conseq; [apply (with_dir_entry_mut_tot2 X X id f HX HX)| | |].
   - intros s H. apply Hid. exact H.
   - exact Hid.
   - exact Hupd.
@@ -1709,12 +1754,22 @@ Proof.
     set (Yn := fun s => lenN (minifat s2) < lenN (minifat s)).
     assert (HYd : dstable Y) by (apply (dstable_minifat (fun m => m = minifat s2))).
     assert (HX : astable (AY DT Y)) by (apply astable_AY; exact HYd).
-    (* the mini stream grows first ... *)
+    eapply tot_bind with (Q := fun _ s => s = s2).
+    { eapply tot_conseq; [apply (root_entry_tot (fun s => s = s2))| | |].
+      - intros s ->. destruct H2 as [_ [(HR & _) _]]. exact HR.
+      - intros s H; exact H.
+      - intros r s [H _]; exact H.
+      - intros s ->. exact H2. }
+    intros r.
+    (* the mini stream grows first (unless it already reaches past the new mini sector) ... *)
     eapply tot_bind with (Q := fun _ => AX (AY DT Y)).
-    { eapply tot_conseq; [apply (append_mini_sector_tot DT Y Hsc HYd)| | |].
-      - intros s ->. destruct H2 as [Ha Hx]. split; [exact Ha|]. split; [exact Hx|reflexivity].
-      - intros a s H; exact H.
-      - intros s [Ha [Hx _]]. split; assumption. }
+    { destruct (d_len r <? _).
+      - eapply tot_conseq; [apply (append_mini_sector_tot DT Y Hsc HYd)| | |].
+        + intros s ->. destruct H2 as [Ha Hx]. split; [exact Ha|]. split; [exact Hx|reflexivity].
+        + intros a s H; exact H.
+        + intros s [Ha [Hx _]]. split; assumption.
+      - apply tot_ret. intros s ->. destruct H2 as [Ha Hx].
+        split; [split; assumption|]. split; [exact Ha|]. split; [exact Hx|reflexivity]. }
     (* ... then the MiniFAT entry is added *)
     intros _. eapply tot_bind with (Q := fun _ => AX (AY DT Yn)).
     { eapply tot_conseq; [apply (set_minifat_tot (AY DT Y) (AY DT Yn) (lenN (minifat s2)) v HX)| | |].
@@ -2427,6 +2482,31 @@ Proof.
   apply tot_ret. intros s [H _]. auto.
 Qed.
 
+(* the bound check at the head of resize_stream: the rest only runs when it passed *)
+Lemma tot_get_check {B} P (c : cstate -> bool) k (m : M B) (Q : B -> cstate -> Prop) J :
+  (forall s, P s -> J s) ->
+  ((exists s0, c s0 = false) -> tot P m Q J) ->
+  tot P (bind get (fun s0 => bind (if c s0 then fail k else ret tt) (fun _ => m))) Q J.
+Proof.
+  intros HJ Hm s Hs. unfold bind, get. cbv beta iota. destruct (c s) eqn:E.
+  - unfold fail. cbv beta iota. cbn [fst snd]. split; [auto|]. split; [discriminate|intros _; exact I].
+  - unfold ret. cbv beta iota. apply Hm; eauto.
+Qed.
+
+(* the same with a second refusal on the same snapshot *)
+Lemma tot_get_check2 {B} P (c c2 : cstate -> bool) k k2 (m : M B) (Q : B -> cstate -> Prop) J :
+  (forall s, P s -> J s) ->
+  ((exists s0, c s0 = false) -> tot P m Q J) ->
+  tot P (bind get (fun s0 => bind (if c s0 then fail k else ret tt)
+                               (fun _ => bind (if c2 s0 then fail k2 else ret tt) (fun _ => m)))) Q J.
+Proof.
+  intros HJ Hm s Hs. unfold bind, get. cbv beta iota. destruct (c s) eqn:E.
+  - unfold fail. cbv beta iota. cbn [fst snd]. split; [auto|]. split; [discriminate|intros _; exact I].
+  - unfold ret. cbv beta iota. destruct (c2 s) eqn:E2.
+    + unfold fail. cbv beta iota. cbn [fst snd]. split; [auto|]. split; [discriminate|intros _; exact I].
+    + cbv beta iota. apply Hm; eauto.
+Qed.
+
 Lemma write_data_tot DT id off buf : shape_closed DT ->
   tot (fun s => Core DT s /\ id < lenN (dirs s)) (write_data id off buf) (fun _ => Core DT) (Core DT).
 Proof.
@@ -2441,6 +2521,8 @@ Proof.
   { destruct (N.ltb_spec old_len off); [apply tot_fail; auto|apply tot_ret; auto]. }
   intros ?. apply (tot_pre (fun s => off <= old_len /\ Core DT' s)); [|intros s [A B]; auto].
   apply tot_pure_pre. intros Hoff.
+  apply (tot_get_check _ (fun s0 => N.min (MAX_REGULAR_SECTOR * slen s0) (stream_len_mask (ver s0))
+                                    <? N.max old_len (off + lenN buf))); [auto|]. intros _.
   eapply tot_bind with (Q := fun _ => Core DT').
   2:{ intros new_start. eapply tot_pre; [apply (update_entry_tot DT' id _ _ Hsc)|].
       intros s H. split; [exact H|]. apply Core_weaken in H. apply H. }
@@ -2581,17 +2663,6 @@ Qed.
 Lemma free_chain_core DT start : tot (Core DT) (free_chain start) (fun _ => Core DT) (Core DT).
 Proof. apply (free_chain_ax (Aux DT) start (astable_Aux DT)). Qed.
 
-(* the bound check at the head of resize_stream: the rest only runs when it passed *)
-Lemma tot_get_check {B} P (c : cstate -> bool) k (m : M B) (Q : B -> cstate -> Prop) J :
-  (forall s, P s -> J s) ->
-  ((exists s0, c s0 = false) -> tot P m Q J) ->
-  tot P (bind get (fun s0 => bind (if c s0 then fail k else ret tt) (fun _ => m))) Q J.
-Proof.
-  intros HJ Hm s Hs. unfold bind, get. cbv beta iota. destruct (c s) eqn:E.
-  - unfold fail. cbv beta iota. cbn [fst snd]. split; [auto|]. split; [discriminate|intros _; exact I].
-  - unfold ret. cbv beta iota. apply Hm; eauto.
-Qed.
-
 Lemma resize_bound s0 new_len : (MAX_REGULAR_SECTOR * slen s0 <? new_len) = false -> new_len + 4096 < two64.
 Proof.
   intros H. apply N.ltb_ge in H.
@@ -2609,7 +2680,8 @@ Proof.
   assert (Hw : forall s, Core DT' s -> Core DT s) by (intros s H; apply Core_weaken in H; apply H).
   apply (tot_conseq (Core DT') _ _ (fun _ => Core DT') _ (Core DT')); [| |intros ? s; apply Hw|exact Hw].
   2:{ intros s (H & e & He & Ht & _). apply Core_strengthen; [exact H|]. exists e. auto. }
-  apply (tot_get_check _ (fun s0 => MAX_REGULAR_SECTOR * slen s0 <? new_len)); [auto|].
+  apply (tot_get_check2 _ (fun s0 => MAX_REGULAR_SECTOR * slen s0 <? new_len)
+                          (fun s0 => stream_len_mask (ver s0) <? new_len)); [auto|].
   intros [sb Hsb]. pose proof (resize_bound sb new_len Hsb) as Hnl. clear sb Hsb.
   eapply tot_bind with (Q := fun _ => Core DT').
   2:{ intros new_start. eapply tot_pre; [apply (update_entry_tot DT' id _ _ Hsc)|].
